@@ -28,6 +28,28 @@ Round 3 (histories / failure paths / process order / rare classes):
     filtered Weas, immutable collections, zeros for every optional numeric argument, key-collision variants
     (`_collide`), southern / polar locations, Wea.from_zhang_huang_solar (consumer of the split).
 The consumer table of every modelled producer is in the header of the history section below.
+
+Round 4 (input shapes / aliasing / sibling classes / conventions between modules / numeric edges / rare branches):
+  * `shapes` (oracle) + `cs_shape` / `rcs_shape` (correspondence): ashrae_clear_sky, ashrae_revised_clear_sky,
+    zhang_huang_solar_split and dirint get every sequence argument as list, tuple, deque, array, list subclass
+    (must give the list's answer) and as generator / iter / map / reversed / filter (the list's answer or a
+    TypeError), all arguments or ONE argument at a time; element i must be the answer for altitude i alone; the
+    returned lists are objects of their own, survive a later call, can be edited without changing the next
+    answer; arguments are left alone.  List-level model Model/SkyList + theorems C10_clear_sky_list_* (Props/C10).
+  * `sky_forms`: both sky classes through every constructor form (direct, from_dict, base-class from_dict, JSON,
+    from_analysis_period of a STRING-built period, duplicate, inside a DesignDay built directly / from_dict /
+    from_design_day_properties / from_idf / duplicate), all timesteps: statement clauses at independently dated
+    altitudes, equality with the directly built sibling, the three returned lists separate objects, edits of
+    returned lists / collections do not leak.
+  * `wea_forms`: a Wea built directly, with a string-built period, string-valued Location, tuple values,
+    to_dict/from_dict (+JSON), duplicate, the four filters of a wider Wea, unsorted + duplicated explicit
+    datetimes; magnitudes 1e-12 .. 1e+15: closure, direct horizontal, upward surface, total, facing surface.
+  * `wea_zh`: Wea.from_zhang_huang_solar on VARYING weather (pressure given / None, first three hours wrap to the
+    end of the data) against the split called on arguments assembled here; `wea_constructor` now compares sampled
+    steps of the two clear-sky constructors with the stand-alone models (distinct optical depths per month).
+  * history ops `twin` (a second object of the same class between the reads) and `scribble` (in-place edit of
+    what an earlier read returned), period kind `unsorted`, magnitudes; integer altitudes everywhere;
+    `branch:*` counters for every branch listed in the header of the round-4 section.
 """
 import json
 import math
@@ -39,6 +61,7 @@ from harness.core import err_name, run_oracle_cases
 PROP = 'C10'
 PROOF_MODULES = ['Ladybug.Props.C10', 'Ladybug.Proofs.C10Gen']
 GREP_MODULES = ['Ladybug.Transc', 'Ladybug.RealInst', 'Ladybug.Model.Sky', 'Ladybug.Model.SkyObj',
+                'Ladybug.Model.SkyList', 'Ladybug.Proofs.C10List',
                 'Ladybug.Gen.SkyTables', 'Ladybug.Gen.SkyFormulas',
                 'Ladybug.Proofs.C10Lemmas', 'Ladybug.Proofs.C10Dirint', 'Ladybug.Proofs.C10Pinned',
                 'Ladybug.Proofs.C10Hist',
@@ -182,6 +205,8 @@ def cmp_batch(ctx, op, cases, line_fn, impl_fn, atol=ATOL):
 
 # ---------------------------------------------------------------------------------------------
 # generators (plain numbers only; nothing is produced by the code under test)
+
+ALT_INTS = [-1, 0, 1, 3, 4, 10, 45, 90]
 
 ALT_EDGES = [-90.0, -45.0, -3.0, -1e-9, -0.0, 0.0, 1e-300, 1e-9, 0.005, 0.0114, 0.02, 0.5, 1.0, 2.9999,
              3.0, 3.0001, 3.7, 3.727, 3.8, 5.0, 9.9999, 10.0, 10.0001, 20.0, 20.0001, 35.0, 35.0001, 50.0,
@@ -369,12 +394,17 @@ def correspondence(ctx):
         cases.append((m.upper(), rng.uniform(0, 90)))
         cases.append((m.capitalize(), rng.uniform(-10, 0)))
     cases += [('foo', 10.0), ('foo', -1.0), ('kasten', 45.0)]
+    cases += [(m, a) for m in AM_MODELS for a in ALT_INTS]          # altitudes given as Python ints
+    for c in cases:
+        _count_branches(ctx, 'relam', c)
     cmp_batch(ctx, 'relam', cases, lambda c: 'relam %s %s' % (c[0], fb(c[1])),
               lambda c: sm.get_relative_airmass(c[1], c[0]))
     for m, a in cases:
         ctx.count('airmass_model:' + m.lower())
 
     cases = [(rng.choice([None, rng.uniform(0.9, 40)]), gen_pressure(rng)) for _ in range(N(200, 4000))]
+    for c in cases:
+        _count_branches(ctx, 'absam', c)
     cmp_batch(ctx, 'absam', cases, lambda c: 'absam %s %s' % (ofb(c[0]), fb(c[1])),
               lambda c: sm.get_absolute_airmass(c[0], c[1]))
 
@@ -402,6 +432,8 @@ def correspondence(ctx):
         cases.append((rng.choice([0.0, 1.0, rng.uniform(0, 2)]), rng.choice([None, rng.uniform(0.5, 40)]),
                       rng.choice([1, 2.0, 0.82])))
     cases.append((0.5, 0.0, 1))          # ZeroDivisionError
+    for c in cases:
+        _count_branches(ctx, 'ktp', c)
     cmp_batch(ctx, 'ktp', cases, lambda c: 'ktp %s %s %s' % (fb(c[0]), ofb(c[1]), fb(c[2])),
               lambda c: sm.clearness_index_zenith_independent(*c))
 
@@ -428,6 +460,9 @@ def correspondence(ctx):
     sing = [c for c in cases if max(math.sin(math.radians(c[1])), c[4]) <= 0]
     ctx.count('disc_singular_skipped', len(sing))
     cases = [c for c in cases if c not in sing]
+    cases += [(rng.uniform(50, 900), a, rng.randrange(1, 367), 101325, 0.065, 3, 12) for a in ALT_INTS]
+    for c in cases:
+        _count_branches(ctx, 'disc', c)
     cmp_batch(ctx, 'disc', cases,
               lambda c: 'disc %s %s %s %s %s %s %s' % (fb(c[0]), fb(c[1]), fb(c[2]), ofb(c[3]), fb(c[4]),
                                                        fb(c[5]), fb(c[6])),
@@ -442,6 +477,7 @@ def correspondence(ctx):
         cases.append((ud, hd, rng.choice([0.065, 0.065, 0.1]), rng.choice([3, 3, 0, 6]), ghi, alts, doys, pres,
                       dew if hd else None))
         ctx.count('dirint_len:%s' % ('1' if len(alts) == 1 else '2-8' if len(alts) <= 8 else '9+'))
+        _count_branches(ctx, 'dirint', cases[-1])
 
     def dirint_line(c):
         xs = list(c[4]) + list(c[5]) + list(c[6]) + list(c[7]) + (list(c[8]) if c[1] else [])
@@ -458,13 +494,66 @@ def correspondence(ctx):
         for a in ALT_EDGES + [gen_alt(rng) for _ in range(N(15, 300))]:
             cases.append((month, a, rng.choice([1, 1, 0, 0.5, 1.2, rng.uniform(0, 1.2)])))
     cases = [c for c in _collide(rng, cases, 0.05) if isinstance(c[0], int)]
+    cases += [(rng.randrange(1, 13), a, rng.choice([1, 1.0])) for a in ALT_INTS]
+    for c in cases:
+        _count_branches(ctx, 'cs', c)
     cmp_batch(ctx, 'cs', cases, lambda c: 'cs %d %s %s' % (c[0], fb(c[1]), fb(c[2])),
               lambda c: [x[0] for x in sm.ashrae_clear_sky([c[1]], c[0], c[2])])
     cases = []
     for a in ALT_EDGES + [gen_alt(rng) for _ in range(N(400, 8000))]:
         cases.append((a, rng.uniform(0.15, 0.9), rng.uniform(1.3, 3.0), rng.random() < 0.5))
+    cases += [(a, 0.4, 2, rng.random() < 0.5) for a in ALT_INTS]
+    for c in cases:
+        _count_branches(ctx, 'rcs', c)
     cmp_batch(ctx, 'rcs', cases, lambda c: 'rcs %s %s %s %s' % (fb(c[0]), fb(c[1]), fb(c[2]), _b(c[3])),
               lambda c: [x[0] for x in sm.ashrae_revised_clear_sky([c[0]], c[1], c[2], c[3])])
+
+    # --- round 4: the list-taking clear-sky models fed the same numbers in every container shape; every element
+    # of the answer is compared with the model's value for that altitude (the model is a function of lists)
+    for fn in ('cs', 'rcs'):
+        prms, memo, flat = [], {}, []
+        for shape in ('list',) + SEQ_SHAPES + ONE_SHOT:
+            for _ in range(N(1, 12)):
+                prms.append(_gen_shape_params(rng, fn, rng.choice([1, 3, 24])))
+                ctx.count('shape_corr:%s:%s' % (fn, shape))
+                flat += [(shape, len(prms) - 1, i) for i in range(len(prms[-1]['alts']))]
+
+        def shape_impl(c, fn=fn, prms=prms, memo=memo):
+            shape, k, i = c
+            if (shape, k) not in memo:
+                cols, call = _shape_args(fn, prms[k])
+                try:
+                    memo[(shape, k)] = _norm_res(fn, call([_shape(shape, cols[0])]))
+                except Exception as e:
+                    memo[(shape, k)] = e
+            r = memo[(shape, k)]
+            if isinstance(r, Exception):
+                raise r
+            return [r[0][i], r[1][i]]
+
+        def shape_line(c, fn=fn, prms=prms):
+            q = prms[c[1]]
+            if fn == 'cs':
+                return 'cs %d %s %s' % (q['month'], fb(q['alts'][c[2]]), fb(q['clearness']))
+            return 'rcs %s %s %s %s' % (fb(q['alts'][c[2]]), fb(q['tb']), fb(q['td']), _b(q['use2017']))
+
+        cmp_batch(ctx, fn + '_shape', flat, shape_line, shape_impl)
+
+        # the same calls against the LIST-level model (Model/SkyList: one pass, two lists, first error aborts)
+        def list_impl(c, fn=fn, prms=prms, memo=memo):
+            r = memo[c]
+            if isinstance(r, Exception):
+                raise r
+            return [r[0], r[1]]
+
+        def list_line(c, fn=fn, prms=prms):
+            q = prms[c[1]]
+            al = ' '.join(fb(a) for a in q['alts'])
+            if fn == 'cs':
+                return 'csl %d %s %s' % (q['month'], fb(q['clearness']), al)
+            return 'rcsl %s %s %s %s' % (fb(q['tb']), fb(q['td']), _b(q['use2017']), al)
+
+        cmp_batch(ctx, fn + 'l', sorted(memo, key=lambda c: (c[1], c[0])), list_line, list_impl)
 
     # --- Zhang-Huang
     cases = []
@@ -472,6 +561,9 @@ def correspondence(ctx):
         cc, rh, t, t3, ws = gen_weather(rng)
         cases.append((gen_alt(rng), cc, rh, t, t3, ws, rng.choice([1355, 1355, rng.uniform(1300, 1420)])))
     cases = _collide(rng, cases)
+    cases += [(a, 3, 50, 20, 18, 2, 1355) for a in ALT_INTS]
+    for c in cases:
+        _count_branches(ctx, 'zh', c)
     cmp_batch(ctx, 'zh', cases, lambda c: 'zh ' + ' '.join(fb(x) for x in c),
               lambda c: sm.zhang_huang_solar(*c))
 
@@ -509,6 +601,8 @@ def correspondence(ctx):
             dhi = -rng.uniform(1, 100)              # log of a negative delta / eps < 1
         ghi = dhi + dni * math.sin(math.radians(max(alt, 0)))
         cases.append((alt, ghi, dni, dhi, rng.uniform(-40, 30), rng.choice([None, None, rng.uniform(1, 38)])))
+    for c in cases:
+        _count_branches(ctx, 'illum', c)
     cmp_batch(ctx, 'illum', cases,
               lambda c: 'illum %s %s' % (' '.join(fb(x) for x in c[:5]), ofb(c[5])),
               lambda c: sm.estimate_illuminance_from_irradiance(*c), atol=1e-7)
@@ -585,6 +679,8 @@ def correspondence(ctx):
             res, e3 = guarded(lambda: [list(c.values) for c in
                                        wea.directional_irradiance(sa, sz, refl, iso)])
             ctx.count('surface:%s' % ('up' if sa == 90 else 'down' if sa == -90 else 'tilted'))
+            for i in idx:
+                _count_branches(ctx, 'dirirr', (suns[i][0], suns[i][1], sa, sz, iso))
             cmp_batch(ctx, 'dirirr', idx,
                       lambda i: 'dirirr %s %s %s %s %s %s %s %s' % (
                           fb(suns[i][0]), fb(suns[i][1]), fb(dnr[i]), fb(dhr[i]), fb(sa), fb(sz), fb(refl),
@@ -857,8 +953,9 @@ def _check_basic(op, inp):
         elif inp['kind'] == 'ashrae_clear_sky':
             wea = Wea.from_ashrae_clear_sky(loc, inp['clearness'], inp['timestep'], inp['leap'])
         else:
-            wea = Wea.from_ashrae_revised_clear_sky(loc, [inp['tb']] * 12, [inp['td']] * 12, inp['timestep'],
-                                                    inp['leap'], inp['use2017'])
+            tbs = inp.get('tbs') or [inp['tb']] * 12
+            tds = inp.get('tds') or [inp['td']] * 12
+            wea = Wea.from_ashrae_revised_clear_sky(loc, tbs, tds, inp['timestep'], inp['leap'], inp['use2017'])
         suns = _suns(wea)
         dnr = list(wea.direct_normal_irradiance.values)
         dhr = list(wea.diffuse_horizontal_irradiance.values)
@@ -875,6 +972,26 @@ def _check_basic(op, inp):
             if not _rel(ghi[i], dhr[i] + dnr[i] * math.sin(math.radians(alt))):
                 return {'required': 'ghi = dhi + dni*sin(alt) at step %d' % i, 'observed': ghi[i],
                         'sig': {'clause': 'closure', 'where': 'wea_' + inp['kind']}}
+        if inp['kind'] != 'zhang_huang' and inp.get('sample'):
+            # sibling agreement: the constructor's values are those of the stand-alone model at the sun altitude
+            # and the MONTH of each step, both dated here (month number / month position, leap-year minutes)
+            import datetime
+            ts_, leap_ = inp['timestep'], bool(inp['leap'])
+            for i in inp['sample']:
+                i = i % len(dnr)
+                moy = 60.0 * i / ts_ + (30 if ts_ == 1 else 0)
+                alt = _sun_at((inp['lat'], inp['lon'], inp['tz']), leap_, moy)[0]
+                mon = (datetime.datetime(2016 if leap_ else 2017, 1, 1) + datetime.timedelta(minutes=moy)).month
+                if inp['kind'] == 'ashrae_clear_sky':
+                    want = sm.ashrae_clear_sky([alt], mon, inp['clearness'])
+                else:
+                    tbs = inp.get('tbs') or [inp['tb']] * 12
+                    tds = inp.get('tds') or [inp['td']] * 12
+                    want = sm.ashrae_revised_clear_sky([alt], tbs[mon - 1], tds[mon - 1], inp['use2017'])
+                if not (_rel(dnr[i], want[0][0], 1e-9, 1e-7) and _rel(dhr[i], want[1][0], 1e-9, 1e-7)):
+                    return {'required': 'step %d (month %d, altitude %r): the stand-alone model gives %r'
+                            % (i, mon, alt, (want[0][0], want[1][0])), 'observed': (dnr[i], dhr[i]),
+                            'sig': {'clause': 'sibling', 'where': 'wea_' + inp['kind']}}
         return None
     if op == 'closure_designday':
         from ladybug.designday import DesignDay, DryBulbCondition, HumidityCondition, WindCondition, \
@@ -1229,6 +1346,36 @@ class _WeaHist(object):
             elif name == 'item_dhr':
                 wea.diffuse_horizontal_irradiance[op[1] % self.n] = op[2]
                 sh['dhr'][op[1] % self.n] = op[2]
+            elif name == 'twin':
+                # a SECOND Wea in the same process (other place, other data, other flag), asked the same things
+                from ladybug.wea import Wea
+                k = (sh['loc'] + 1 + op[1]) % len(self.locs)
+                dn, dh = self._colls([v * 0.5 + 11.0 for v in sh['dnr']], [v * 2.0 + 3.0 for v in sh['dhr']])
+                w2 = Wea(_mk_location(*self.locs[k]), dn, dh)
+                w2.enforce_on_hour = not sh['enforce']
+                w2.global_horizontal_irradiance
+                w2.direct_horizontal_irradiance
+                w2.directional_irradiance(30, 100, 0.5, False)
+            elif name == 'scribble':
+                # the caller edits what an earlier read returned (values and header metadata), in place
+                rop, _j = self.resolve(op[1])
+                if rop[0] in ('ghi', 'dup_ghi'):
+                    got = [wea.global_horizontal_irradiance]
+                elif rop[0] == 'dirh':
+                    got = [wea.direct_horizontal_irradiance]
+                elif rop[0] == 'dirirr':
+                    got = list(wea.directional_irradiance(rop[1], rop[2], rop[3], rop[4]))
+                elif rop[0] == 'sunup':
+                    w2 = wea.filter_by_sun_up(rop[1])
+                    got = [w2.direct_normal_irradiance, w2.diffuse_horizontal_irradiance]
+                else:
+                    got = []
+                for c in got:
+                    try:
+                        c.header.metadata['c10'] = 'scribbled'
+                        c.values = [-7.0] * len(c)
+                    except Exception:
+                        pass
             elif name == 'bad_loc':
                 wea.location = {'str': 'Chicago', 'none': None, 'tuple': (41.0, -87.0)}[op[1]]
             elif name in ('bad_dnr', 'bad_dhr'):
@@ -1305,6 +1452,8 @@ class _WeaHist(object):
 
     def model_tokens(self, op):
         """Tokens of one op for the model; evaluated BEFORE the op is applied (uses the shadow)."""
+        if op[0] in ('twin', 'scribble'):
+            return None                      # no effect on the public state: the model does not see them
         rop, _j = self.resolve(op)
         name, sh = rop[0], self.shadow
         if name in ('ghi', 'dup_ghi'):
@@ -1531,6 +1680,30 @@ class _SkyHist(object):
             elif name == 'swap':                      # the design day gets a copy of its sky; go on with the copy
                 dd.sky_condition = sky.duplicate()
                 self.sky = dd.sky_condition
+            elif name == 'twin':
+                # a SECOND sky condition of the same class in the same process, with other settings
+                m, d, leap = self.dates[(sh['date'] + 1) % len(self.dates)]
+                o = dict(sh, date=(sh['date'] + 1) % len(self.dates), dls=not sh['dls'],
+                         clearness=0.3 if sh['clearness'] != 0.3 else 0.9, tb=sh['tb'] * 0.5 + 0.3,
+                         td=sh['td'] * 0.5 + 0.4, u=not sh['u'], loc=(sh['loc'] + 1) % len(self.locs))
+                if not (leap and m == 2 and d == 29) or _dd_period_keeps_leap():
+                    sky2, dd2 = self._make(o)
+                    sky2.radiation_values(_mk_location(*self.locs[o['loc']]), op[1])
+                    dd2.hourly_solar_radiation
+            elif name == 'scribble':
+                # the caller edits what an earlier read returned, in place
+                for lst in sky.radiation_values(_mk_location(*self.locs[op[1]]), op[2]):
+                    if isinstance(lst, list):
+                        lst[:] = [-7.0] * len(lst)
+                        lst.append(-8.0)
+                m, d, leap = self.dates[sh['date']]
+                if not (leap and m == 2 and d == 29) or _dd_period_keeps_leap():
+                    for c in dd.hourly_solar_radiation:
+                        try:
+                            c.header.metadata['c10'] = 'scribbled'
+                            c.values = [-7.0] * len(c)
+                        except Exception:
+                            pass
             elif name == 'bad_val':                   # a non-number for a numeric attribute
                 setattr(sky, op[1], {'str': '1', 'none': None, 'list': [1.0]}[op[2]])
             elif name == 'bad_date':
@@ -1577,7 +1750,7 @@ class _SkyHist(object):
             return ['R', str(op[1])] if op[2] == 1 else None
         if name == 'dd':
             return ['Q']
-        if name in ('ir', 'swap'):
+        if name in ('ir', 'swap', 'twin', 'scribble'):
             return None
         if name == 'set_clear':
             return ['C', fb(op[1])] if num(op[1]) else ['X']
@@ -1708,7 +1881,8 @@ def _end_date(month, day, ndays, leap):
 def _gen_wea_hist(rng, ctx=None, nops=None):
     """A Wea history.  Strata (counted): period kind, timestep, leap, continuity, immutable twins, zeros."""
     leap = rng.random() < 0.4
-    kind = rng.choice(['days', 'days', 'days', 'hours', 'single', 'wrap', 'leapday', 'lastday', 'sunup'])
+    kind = rng.choice(['days', 'days', 'days', 'hours', 'single', 'wrap', 'leapday', 'lastday', 'sunup',
+                       'unsorted'])
     ts = rng.choice([1, 1, 1, 2, 4, rng.choice(TIMESTEPS)])
     ndays = 1
     month, day = rng.randrange(1, 13), rng.randrange(1, 28)
@@ -1723,7 +1897,7 @@ def _gen_wea_hist(rng, ctx=None, nops=None):
         ndays = 2
     per_day = 24 * ts
     pick = None
-    if kind in ('hours', 'single') or per_day * ndays > 192:
+    if kind in ('hours', 'single', 'unsorted') or per_day * ndays > 192:
         # explicit datetimes (HourlyDiscontinuousCollection): one step, a few hours, or a thinned fine grid
         total = per_day * ndays
         if kind == 'single':
@@ -1733,10 +1907,15 @@ def _gen_wea_hist(rng, ctx=None, nops=None):
             m = rng.choice([2, 3, ts + 1, 2 * ts + 1, 12])
             step = rng.choice([1, 1, 2]) if total <= 192 else rng.choice([1, 7, 13, ts])
             pick = sorted(set(min(total - 1, a + j * step) for j in range(m)))
+            if kind == 'unsorted':               # steps in any order, one of them twice (nothing sorts or checks)
+                rng.shuffle(pick)
+                pick.append(pick[0])
     n = per_day * ndays
     zero = rng.random() < 0.15
-    dnr = [0.0 if zero else rng.choice([0.0, 0, rng.uniform(0, 1000), rng.uniform(0, 1000)]) for _ in range(n)]
-    dhr = [rng.choice([0.0, 0, rng.uniform(0, 500), rng.uniform(0, 500)]) for _ in range(n)]
+    mag = rng.choice([1, 1, 1, 1, 1, 1e-12, 1e12])      # very small / very large magnitudes (relative tolerances)
+    dnr = [0.0 if zero else rng.choice([0.0, 0, mag * rng.uniform(0, 1000), mag * rng.uniform(0, 1000)])
+           for _ in range(n)]
+    dhr = [rng.choice([0.0, 0, mag * rng.uniform(0, 500), mag * rng.uniform(0, 500)]) for _ in range(n)]
     if pick is not None:
         dnr, dhr = dnr[:len(pick)], dhr[:len(pick)]
     spec = {'locs': _pick_locs(rng),
@@ -1755,6 +1934,8 @@ def _gen_wea_hist(rng, ctx=None, nops=None):
                ['set_dhr', rng.choice([0, 0.5, 1]), rng.choice([0, 10.0])],
                ['vals_dnr', 0.25, 3.0], ['item_dnr', rng.randrange(1000), rng.choice([0, 0.0, 777.0])],
                ['item_dhr', rng.randrange(1000), rng.choice([0, 55.5])]]
+    setters += [['twin', rng.randrange(2)], ['scribble', rng.choice(reads[:5] + [reads[7]])],
+                ['scribble', ['ghi']]]
     refused = [['bad_loc', rng.choice(['str', 'none', 'tuple'])], ['bad_dnr', rng.choice(['short', 'dtype', 'list'])],
                ['bad_dhr', rng.choice(['short', 'dtype', 'list'])], ['bad_dirirr'],
                ['bad_illum', rng.choice(['short', 'str'])], ['bad_sunup'], ['bad_get']]
@@ -1788,6 +1969,7 @@ def _gen_wea_hist(rng, ctx=None, nops=None):
                                                  spec['sun_up_only'] else 'continuous',
                                                  '_immutable' if spec['immutable'] else ''))
         ctx.count('hist_wea_style:' + style)
+        ctx.count('hist_wea_magnitude:%g' % mag)
         if pick is not None and len(pick) == 1:
             ctx.count('hist_wea_single_step')
         for op in ops:
@@ -1815,6 +1997,7 @@ def _gen_sky_hist(rng, ctx=None):
     bad_clear = [11, -1, 1.2000000000000002, -1e-9, 1.3, 100.0, -0.5]
     setters = [['set_date', rng.randrange(3)], ['set_date', 1], ['set_dls', rng.random() < 0.5], ['set_dls', 1],
                ['dd_loc', rng.randrange(3)], ['dd_mutloc', rng.randrange(3)], ['swap']]
+    setters += [['twin', rng.choice([1, 2])], ['scribble', rng.randrange(3), rng.choice([1, 1, 2])]]
     refused = [['bad_date', rng.choice(['str', 'list'])], ['bad_dd_loc'], ['bad_dd_sky'],
                ['bad_rad', rng.choice(['loc', 'ts'])]]
     if kind == 'clear':
@@ -2036,6 +2219,624 @@ def _order_slice(ctx):
             break
 
 
+# =============================================================================================
+# round 4: input shapes / one-shot iterables, aliasing, sibling forms, conventions between modules, numeric
+# edges, rare branches.
+#
+# Branches of the anchored functions (counted as `branch:<function>:<branch>` by _count_branches; `x` = not
+# reachable through the public API):
+#   ashrae_clear_sky ............ night (alt <= 0) | day | overflow (exp overflow at alt < 0.0114 deg -> 0)
+#   ashrae_revised_clear_sky .... night | day  x  coefficients 2009 | 2017
+#   zhang_huang_solar ........... night | day | clamp (regression negative -> 0)
+#   zhang_huang_solar_split ..... dirint | disc
+#   estimate_illuminance ........ night | dhi0 (dhi == 0 -> 0.1) | eps category 0..7 | eps<1 (ValueError) |
+#                                 airmass given | airmass None
+#   dirint ...................... delta on | off, dew given | None, len 1 (IndexError fall-back AND index -1),
+#                                 altitude bins 0..5
+#   disc ........................ below_min_altitude | ghi<=0 | pressure None | computed;  _disc_kn kt<=0.6 | >0.6
+#   clearness_index_zenith_independent .. airmass None | given;  get_absolute_airmass None | given
+#   get_relative_airmass ........ below horizon (None) | each of the 7 formulas | unknown name (ValueError)
+#   Wea.directional_irradiance .. isotropic | anisotropic (clamp 0.45 | above), sun down | behind the surface | lit
+#   Wea.datetimes ............... half hour (timestep 1, not enforced) | on the step
+#   Wea._aligned_collection ..... continuous | discontinuous
+#   _SkyCondition._get_datetimes  daylight savings | standard  x  timestep 1 (half hour) | sub-hourly
+#   Wea.from_zhang_huang_solar .. pressure None | given; first 3 hours (dry bulb of 3 h before wraps to the END
+#                                 of the data) | later hours
+#
+# Every sequence argument is passed as list / tuple / deque / array / list subclass (must be accepted and give
+# the list's values) and as generator / iter / map / reversed / filter (the list's values or a TypeError); every
+# returned container is edited in place and the question asked again; two results are kept across a later call;
+# every class / constructor form of sky condition, design day and Wea is exercised and compared with the directly
+# constructed sibling.
+
+
+class _ListSub(list):
+    pass
+
+
+SEQ_SHAPES = ('tuple', 'deque', 'array', 'listsub')
+ONE_SHOT = ('gen', 'iter', 'map', 'reversed', 'filter')
+
+
+def _shape(name, xs):
+    import array
+    import collections
+    xs = list(xs)
+    if name == 'list':
+        return xs
+    if name == 'tuple':
+        return tuple(xs)
+    if name == 'gen':
+        return (v for v in xs)
+    if name == 'iter':
+        return iter(xs)
+    if name == 'map':
+        return map(lambda v: v, xs)
+    if name == 'reversed':
+        return reversed(xs[::-1])
+    if name == 'filter':
+        return filter(lambda v: True, xs)
+    if name == 'deque':
+        return collections.deque(xs)
+    if name == 'array':
+        return array.array('d', [float(v) for v in xs])
+    if name == 'listsub':
+        return _ListSub(xs)
+    raise ValueError('unknown shape ' + name)
+
+
+def _shape_args(fn, p):
+    """(sequence arguments as lists, call(list of sequence arguments) -> result) of one list-taking function."""
+    from ladybug import skymodel as sm
+    if fn == 'cs':
+        return [list(p['alts'])], lambda a: sm.ashrae_clear_sky(a[0], p['month'], p['clearness'])
+    if fn == 'rcs':
+        return [list(p['alts'])], lambda a: sm.ashrae_revised_clear_sky(a[0], p['tb'], p['td'], p['use2017'])
+    if fn == 'zhs':
+        cols = [list(c) for c in zip(*p['rows'])]
+        return cols, lambda a: sm.zhang_huang_solar_split(a[0], a[1], a[2], a[3], a[4], a[5], a[6], a[7],
+                                                          p['use_disc'])
+    if fn == 'dirint':
+        cols = [list(p['ghi']), list(p['alts']), list(p['doys']), list(p['pres']), list(p['dew'])]
+        return cols, lambda a: sm.dirint(a[0], a[1], a[2], a[3], use_delta_kt_prime=p['ud'], temp_dew=a[4])
+    raise ValueError('unknown function ' + fn)
+
+
+def _norm_res(fn, r):
+    return [list(r)] if fn == 'dirint' else [list(x) for x in r]
+
+
+def _eq_lists(a, b):
+    return len(a) == len(b) and all(len(x) == len(y) and all(_same(u, v, 0) for u, v in zip(x, y))
+                                    for x, y in zip(a, b))
+
+
+def _gen_shape_params(rng, fn, n=None):
+    n = n if n is not None else rng.choice([1, 2, 3, 8, 24])
+    alts = [rng.choice([gen_alt(rng), gen_alt(rng), int(gen_alt(rng))]) for _ in range(n)]
+    if fn == 'cs':
+        return {'alts': alts, 'month': rng.randrange(1, 13), 'clearness': rng.choice([1, 1.0, 0.5, 1.2])}
+    if fn == 'rcs':
+        return {'alts': alts, 'tb': rng.uniform(0.2, 0.8), 'td': rng.uniform(1.5, 2.8), 'use2017': rng.random() < 0.5}
+    if fn == 'zhs':
+        rows = []
+        doy, p0 = rng.randrange(1, 367), gen_pressure(rng)
+        for a in alts:
+            cc, rh, t, t3, ws = gen_weather(rng)
+            rows.append([a, doy, cc, rh, t, t3, ws, p0])
+        return {'rows': rows, 'use_disc': rng.random() < 0.5}
+    if fn == 'dirint':
+        return {'ghi': [max(0.0, 1000 * math.sin(math.radians(max(a, 0))) * rng.random()) for a in alts],
+                'alts': alts, 'doys': [rng.randrange(1, 367)] * n, 'pres': [gen_pressure(rng)] * n,
+                'dew': [rng.uniform(-30, 28) for _ in alts], 'ud': rng.random() < 0.7}
+    raise ValueError(fn)
+
+
+def _check_shapes(inp):
+    """The list-taking sky models: the answer does not depend on the container the numbers come in, element i
+    depends on altitude i only, results are containers of their own, arguments are left alone."""
+    import copy
+    fn, shape, p = inp['fn'], inp['shape'], inp['params']
+    cols, call = _shape_args(fn, p)
+    n = len(cols[0])
+
+    def sig(clause, **kw):
+        return dict({'clause': clause, 'fn': fn, 'shape': shape}, **kw)
+
+    try:
+        base = _norm_res(fn, call([list(c) for c in cols]))
+    except Exception as e:
+        return {'required': 'values for %d altitudes given as lists' % n,
+                'observed': 'raises %s: %s' % (type(e).__name__, e), 'sig': sig('finite', raises=type(e).__name__)}
+    if any(len(x) != n for x in base):
+        return {'required': 'one value per altitude (%d)' % n, 'observed': [len(x) for x in base],
+                'sig': sig('length')}
+    if shape == 'alias':
+        args1 = [list(c) for c in cols]
+        keep = copy.deepcopy(args1)
+        r1 = call(args1)
+        conts = [r1] if fn == 'dirint' else list(r1)
+        ids = [id(c) for c in conts] + [id(a) for a in args1]
+        if len(set(ids)) != len(ids):
+            return {'required': 'the returned lists are objects of their own (not one another, not an argument)',
+                    'observed': 'shared: %r' % [type(c).__name__ for c in conts],
+                    'sig': sig('alias', what='shared_container')}
+        if args1 != keep:
+            return {'required': 'the arguments are left as they were', 'observed': 'arguments modified',
+                    'sig': sig('alias', what='input_modified')}
+        snap = _norm_res(fn, r1)
+        cols2, call2 = _shape_args(fn, inp['params2'])
+        r2 = call2([list(c) for c in cols2])
+        snap2 = _norm_res(fn, r2)
+        conts2 = [r2] if fn == 'dirint' else list(r2)
+        if _norm_res(fn, r1) != snap or set(id(c) for c in conts) & set(id(c) for c in conts2):
+            return {'required': 'an earlier result is not changed by a later call: %r' % (snap[0][:4],),
+                    'observed': _norm_res(fn, r1)[0][:4], 'sig': sig('alias', what='later_call_changes_result')}
+        for c in conts:
+            if isinstance(c, list):
+                c[:] = [-7.0] * len(c)
+                c.append(-8.0)
+        r3 = _norm_res(fn, call([list(c) for c in cols]))
+        if not _eq_lists(r3, snap) or _norm_res(fn, r2) != snap2:
+            return {'required': 'editing a returned list does not change the next answer: %r' % (snap[0][:4],),
+                    'observed': r3[0][:4], 'sig': sig('alias', what='edit_leaks')}
+    elif shape != 'list':
+        which = inp.get('which')
+        args = [_shape(shape, c) if which is None or which == k else list(c) for k, c in enumerate(cols)]
+        try:
+            got = _norm_res(fn, call(args))
+        except TypeError as e:
+            if shape in ONE_SHOT:
+                return None                   # refused: the documented argument type is a list
+            return {'required': 'a %s of the same numbers is accepted like a list' % shape,
+                    'observed': 'raises TypeError: %s' % e, 'sig': sig('shape_independent', raises='TypeError')}
+        except Exception as e:
+            return {'required': 'a %s of the same numbers is accepted like a list' % shape,
+                    'observed': 'raises %s: %s' % (type(e).__name__, e),
+                    'sig': sig('shape_independent', raises=type(e).__name__)}
+        if not _eq_lists(got, base):
+            return {'required': 'the values computed from the same numbers given as a list: %d x %r ...'
+                    % (n, [x[:3] for x in base]), 'observed': '%r x %r ...' % ([len(x) for x in got],
+                                                                               [x[:3] for x in got]),
+                    'sig': sig('shape_independent')}
+    if fn in ('cs', 'rcs'):
+        for i in range(n):
+            one = _norm_res(fn, call([[cols[0][i]]]))
+            if not all(_same(one[k][0], base[k][i], 0) for k in range(2)):
+                return {'required': 'element %d is the answer for altitude %r alone: %r' % (
+                    i, cols[0][i], [one[0][0], one[1][0]]), 'observed': [base[0][i], base[1][i]],
+                    'sig': sig('pointwise')}
+    return None
+
+
+# ---- sibling forms of sky conditions / design days ---------------------------------------------------
+
+SKY_FORMS = ('direct', 'dict', 'base_dict', 'json', 'period', 'dup', 'dd', 'dd_dict', 'dd_props', 'dd_idf',
+             'dd_dup')
+
+
+def _sky_alts(loc, m, d, leap, dls, ts):
+    start = (_doy(m, d, leap) - 1) * 1440 - (60 if dls else 0) + (30 if ts == 1 else 0)
+    return [_sun_at(tuple(loc), False, start + (i * (1 / ts) * 60), leap)[0] for i in range(24 * ts)]
+
+
+def _sky_build(inp, form):
+    from ladybug.designday import DesignDay, DryBulbCondition, HumidityCondition, WindCondition, \
+        ASHRAEClearSky, ASHRAETau, _SkyCondition
+    from ladybug.dt import Date
+    from ladybug.analysisperiod import AnalysisPeriod
+    m, d, leap, dls = inp['month'], inp['day'], bool(inp['leap']), bool(inp['dls'])
+    clear = inp['sky'] == 'clear'
+    date = Date(m, d, leap)
+    if clear:
+        sky = ASHRAEClearSky(date, inp['clearness'], dls)
+    else:
+        sky = ASHRAETau(date, inp['tb'], inp['td'], inp['use2017'], dls)
+    loc = _mk_location(*inp['loc'])
+    if form == 'direct':
+        return sky, None
+    if form == 'dict':
+        return type(sky).from_dict(sky.to_dict()), None
+    if form == 'base_dict':
+        return _SkyCondition.from_dict(sky.to_dict()), None
+    if form == 'json':
+        return type(sky).from_dict(json.loads(json.dumps(sky.to_dict()))), None
+    if form == 'period':
+        ap = AnalysisPeriod.from_string('%d/%d to %d/%d between 0 and 23 @1%s' % (m, d, m, d, '*' if leap else ''))
+        if clear:
+            return ASHRAEClearSky.from_analysis_period(ap, inp['clearness'], dls), None
+        return ASHRAETau.from_analysis_period(ap, inp['tb'], inp['td'], inp['use2017'], dls), None
+    if form == 'dup':
+        return sky.duplicate(), None
+    dd = DesignDay('c10', 'SummerDesignDay', loc, DryBulbCondition(30, 10),
+                   HumidityCondition('Wetbulb', 20, 101325), WindCondition(2, 0), sky)
+    if form == 'dd_dict':
+        dd = DesignDay.from_dict(json.loads(json.dumps(dd.to_dict())))
+    elif form == 'dd_dup':
+        dd = dd.duplicate()
+    elif form == 'dd_idf':
+        dd = DesignDay.from_idf(dd.to_idf(), loc)
+    elif form == 'dd_props':
+        model = 'ASHRAEClearSky' if clear else 'ASHRAETau2017' if inp['use2017'] else 'ASHRAETau'
+        props = [inp['clearness']] if clear else [inp['tb'], inp['td']]
+        dd = DesignDay.from_design_day_properties('c10', 'SummerDesignDay', loc, date, 30, 10, 'Wetbulb', 20,
+                                                  101325, 2, 0, model, props)
+        dd.sky_condition.daylight_savings = dls
+    elif form != 'dd':
+        raise ValueError('unknown form ' + form)
+    return dd.sky_condition, dd
+
+
+def _check_sky_forms(inp):
+    form, ts, kind = inp['form'], inp.get('ts', 1), inp['sky']
+
+    def fail(required, observed, clause, **kw):
+        return {'required': required, 'observed': observed,
+                'sig': dict({'clause': clause, 'form': form, 'sky': kind}, **kw)}
+
+    try:
+        sky, dd = _sky_build(inp, form)
+        ref_sky, _ = _sky_build(inp, 'direct')
+        loc = _mk_location(*inp['loc'])
+        if dd is not None and ts == 1:
+            vals = [list(c.values) for c in dd.hourly_solar_radiation]
+        else:
+            vals = [list(x) for x in sky.radiation_values(loc, ts)]
+        ref = [list(x) for x in ref_sky.radiation_values(_mk_location(*inp['loc']), ts)]
+    except Exception as e:
+        return fail('irradiance of the %s sky built as %r' % (kind, form),
+                    'raises %s: %s' % (type(e).__name__, e), 'finite', raises=type(e).__name__)
+    alts = _sky_alts(inp['loc'], inp['month'], inp['day'], inp['leap'], inp['dls'], ts)
+    n = len(alts)
+    if len(vals) != 3 or any(len(x) != n for x in vals):
+        return fail('3 x %d values' % n, [len(x) for x in vals], 'length')
+    in_range = (0 <= inp['clearness'] <= 1.2) if kind == 'clear' else (inp['tb'] >= 0.2 and inp['td'] >= 0)
+    for i, alt in enumerate(alts):
+        dn, dh, gh = vals[0][i], vals[1][i], vals[2][i]
+        want = dh + dn * math.sin(math.radians(alt))
+        if not _rel(gh, want):
+            return fail('ghi = dhi + dni*sin(alt) = %r at index %d (altitude %r)' % (want, i, alt), gh, 'closure')
+        if alt <= 0 and (dn != 0 or dh != 0 or gh != 0):
+            return fail('zero at altitude %r (index %d)' % (alt, i), (dn, dh, gh), 'night_zero')
+        if not _fin([dn, dh, gh]) or (in_range and (dn < 0 or gh < 0)):
+            return fail('finite, dni >= 0, ghi >= 0 (index %d)' % i, (dn, dh, gh), 'nonneg')
+        if not dn <= _ext_min():
+            return fail('clear-sky direct normal <= extraterrestrial (%r)' % _ext_min(), dn, 'le_extraterrestrial')
+    if not _eq_lists(vals, ref):
+        k = next(((c, i) for c in range(3) for i in range(min(len(vals[c]), len(ref[c])))
+                  if not _same(vals[c][i], ref[c][i], 0)), (0, 0))
+        return fail('the values of the sky condition constructed directly (column %d, index %d): %r'
+                    % (k[0], k[1], ref[k[0]][k[1]]), vals[k[0]][k[1]], 'sibling')
+    # aliasing: the three returned lists are objects of their own; editing them does not change the next answer
+    raw = sky.radiation_values(loc, ts)
+    if len(set(id(x) for x in raw)) != len(raw):
+        return fail('direct, diffuse and global lists are three separate objects', 'shared list', 'alias',
+                    what='shared_container')
+    snap = [list(x) for x in raw]
+    for x in raw:
+        if isinstance(x, list):
+            x[:] = [-7.0] * len(x)
+            x.append(-8.0)
+    again = [list(x) for x in sky.radiation_values(loc, ts)]
+    if not _eq_lists(again, snap):
+        return fail('editing a returned list does not change the next answer', 'next answer differs', 'alias',
+                    what='edit_leaks')
+    if dd is not None:
+        cols = dd.hourly_solar_radiation
+        for c in cols:
+            try:
+                c.values = [-7.0] * len(c)
+            except Exception:
+                pass
+        again = [list(c.values) for c in dd.hourly_solar_radiation]
+        ref1 = [list(x) for x in sky.radiation_values(loc, 1)]
+        if not _eq_lists(again, ref1):
+            return fail('editing a returned collection does not change the next answer', 'next answer differs',
+                        'alias', what='edit_leaks_designday')
+    return None
+
+
+# ---- sibling forms of a Wea ----------------------------------------------------------------------------
+
+WEA_FORMS = ('direct', 'period_string', 'str_location', 'tuple_values', 'dict', 'json', 'dup', 'filter_ap',
+             'filter_moys', 'filter_hoys', 'filter_pattern', 'unsorted')
+
+
+def _wea_form_build(inp):
+    """-> (wea, moys, dnr, dhr): the Wea in the asked form and the steps / values it must hold."""
+    from ladybug.wea import Wea
+    from ladybug.location import Location
+    from ladybug.analysisperiod import AnalysisPeriod
+    from ladybug.datacollection import HourlyContinuousCollection, HourlyDiscontinuousCollection
+    from ladybug.header import Header
+    from ladybug.datatype.energyflux import DirectNormalIrradiance, DiffuseHorizontalIrradiance
+    form = inp['form']
+    lat, lon, tz = inp['loc']
+    m, d, nd, ts, leap = inp['month'], inp['day'], inp['ndays'], inp['timestep'], bool(inp['leap'])
+    n = nd * 24 * ts
+    dnr, dhr = list(inp['dnr'])[:n], list(inp['dhr'])[:n]
+    moy0 = (_doy(m, d, leap) - 1) * 1440
+    moys = [moy0 + i * 60 // ts for i in range(n)]
+    loc = _mk_location(lat, lon, tz)
+    if form == 'str_location':
+        loc = Location('c10', latitude=repr(float(lat)), longitude=repr(float(lon)), time_zone=repr(float(tz)))
+
+    def period(days):
+        em, ed = _end_date(m, d, days, leap)
+        return AnalysisPeriod(m, d, 0, em, ed, 23, ts, leap)
+
+    def mk(ap, a, b):
+        return Wea(loc, HourlyContinuousCollection(Header(DirectNormalIrradiance(), 'W/m2', ap), a),
+                   HourlyContinuousCollection(Header(DiffuseHorizontalIrradiance(), 'W/m2', ap), b))
+
+    ap = period(nd)
+    if form == 'period_string':
+        ap = AnalysisPeriod.from_string(str(ap))
+    if form.startswith('filter_'):
+        extra = 24 * ts
+        wide = mk(period(nd + 1), dnr + [999.0] * extra, dhr + [888.0] * extra)
+        if form == 'filter_ap':
+            w = wide.filter_by_analysis_period(ap)
+        elif form == 'filter_moys':
+            w = wide.filter_by_moys(list(moys))
+        elif form == 'filter_hoys':
+            w = wide.filter_by_hoys([x / 60.0 for x in moys])
+        else:
+            w = wide.filter_by_pattern([True] * n + [False] * extra)
+    elif form == 'unsorted':
+        order = list(inp['order'])
+        dts = list(ap.datetimes)
+        sel = [dts[i % n] for i in order]
+        moys = [moys[i % n] for i in order]
+        dnr, dhr = [dnr[i % n] for i in order], [dhr[i % n] for i in order]
+        w = Wea(loc, HourlyDiscontinuousCollection(Header(DirectNormalIrradiance(), 'W/m2', ap), dnr, sel),
+                HourlyDiscontinuousCollection(Header(DiffuseHorizontalIrradiance(), 'W/m2', ap), dhr, sel))
+    elif form == 'tuple_values':
+        w = mk(ap, tuple(dnr), tuple(dhr))
+    else:
+        w = mk(ap, list(dnr), list(dhr))
+    if form == 'dict':
+        w = Wea.from_dict(w.to_dict())
+    elif form == 'json':
+        w = Wea.from_dict(json.loads(json.dumps(w.to_dict())))
+    elif form == 'dup':
+        w = w.duplicate()
+    if inp.get('enforce'):
+        w.enforce_on_hour = True
+    return w, moys, dnr, dhr
+
+
+def _check_wea_forms(inp):
+    form = inp['form']
+    ts, enforce, leap = inp['timestep'], bool(inp.get('enforce')), bool(inp['leap'])
+
+    def fail(required, observed, clause, **kw):
+        return {'required': required, 'observed': observed,
+                'sig': dict({'clause': clause, 'form': form, 'timestep': ts, 'leap': leap}, **kw)}
+
+    try:
+        w, moys, dnr, dhr = _wea_form_build(inp)
+        ghi = list(w.global_horizontal_irradiance.values)
+        dho = list(w.direct_horizontal_irradiance.values)
+        got_dnr = list(w.direct_normal_irradiance.values)
+        got_dhr = list(w.diffuse_horizontal_irradiance.values)
+    except Exception as e:
+        return fail('a Wea built as %r answers' % form, 'raises %s: %s' % (type(e).__name__, e), 'finite',
+                    raises=type(e).__name__)
+    n = len(moys)
+    if not (len(ghi) == len(dho) == len(got_dnr) == n):
+        return fail('%d steps' % n, (len(ghi), len(dho), len(got_dnr)), 'length')
+    if not (_eq_lists([got_dnr], [dnr]) and _eq_lists([got_dhr], [dhr])):
+        return fail('the Wea holds the irradiance values it was given', 'other values', 'sibling')
+    half = 30 if (ts == 1 and not enforce) else 0
+    suns = [_sun_at(tuple(inp['loc']), leap, mo + half) for mo in moys]
+    for i, (alt, _az) in enumerate(suns):
+        s = math.sin(math.radians(alt))
+        if not _rel(ghi[i], dhr[i] + dnr[i] * s):
+            return fail('ghi = dhi + dni*sin(alt) = %r at step %d (minute of year %d, altitude %r)'
+                        % (dhr[i] + dnr[i] * s, i, moys[i] + half, alt), ghi[i], 'closure')
+        if not _rel(dho[i], dnr[i] * s):
+            return fail('direct horizontal = dni*sin(alt) = %r at step %d' % (dnr[i] * s, i), dho[i],
+                        'direct_horizontal')
+    ups = [i for i, s_ in enumerate(suns) if s_[0] > 0]
+    try:
+        cols = [list(c.values) for c in w.directional_irradiance(90, inp.get('az', 180), inp.get('refl', 0.2),
+                                                                 inp.get('iso', True))]
+        for i in range(n):
+            if not _rel(cols[0][i], cols[1][i] + cols[2][i] + cols[3][i]):
+                return fail('total = direct + diffuse + reflected at step %d' % i, cols[0][i], 'total_sum')
+            if suns[i][0] > 0 and not _rel(cols[0][i], ghi[i], 1e-9, 1e-7):
+                return fail('upward surface total = global horizontal = %r at step %d' % (ghi[i], i), cols[0][i],
+                            'up_surface')
+        if ups:
+            k = ups[inp.get('face', 0) % len(ups)]
+            dr = list(w.directional_irradiance(suns[k][0], suns[k][1], 0.2, True)[1].values)
+            if not _rel(dr[k], dnr[k], 1e-9, 1e-7):
+                return fail('surface facing the sun of step %d (alt %r, az %r) receives dni = %r'
+                            % (k, suns[k][0], suns[k][1], dnr[k]), dr[k], 'facing_sun')
+    except Exception as e:
+        return fail('directional irradiance of a Wea built as %r' % form,
+                    'raises %s: %s' % (type(e).__name__, e), 'finite', raises=type(e).__name__)
+    return None
+
+
+def _gen_wea_form(rng, form=None):
+    form = form or rng.choice(WEA_FORMS)
+    lat, lon, tz = rng.choice(gen_locations(rng))
+    leap = rng.random() < 0.4
+    ts = rng.choice([1, 1, 2, rng.choice(TIMESTEPS)])
+    nd = 1 if ts > 4 else rng.choice([1, 2])
+    month, day = rng.choice([(2, 27), (2, 28), (12, 30), (rng.randrange(1, 13), rng.randrange(1, 26))])
+    if form.startswith('filter_') and (month, day) == (12, 30) and nd == 2:
+        nd = 1                                    # the wider Wea of the filter forms must end within the year
+    n = nd * 24 * ts
+    scale = rng.choice([1, 1, 1, 1e-12, 1e12])
+    spec = {'form': form, 'loc': [lat, lon, tz], 'month': month, 'day': day, 'ndays': nd, 'timestep': ts,
+            'leap': leap, 'dnr': [scale * rng.choice([0.0, rng.uniform(0, 1000)]) for _ in range(n)],
+            'dhr': [scale * rng.choice([0.0, rng.uniform(0, 500)]) for _ in range(n)],
+            'enforce': rng.random() < 0.4, 'az': rng.choice([180, 0, rng.uniform(0, 360)]),
+            'refl': rng.choice([0.2, 0, rng.random()]), 'iso': rng.random() < 0.6, 'face': rng.randrange(1000)}
+    if form == 'unsorted':
+        k = rng.randrange(2, 9)
+        order = [rng.randrange(n) for _ in range(k)]
+        order.append(order[0])                    # one step twice
+        spec['order'] = order
+    return spec
+
+
+# ---- Wea.from_zhang_huang_solar against the split evaluated on independently assembled arguments ---------
+
+def _check_wea_zh(inp):
+    from ladybug import skymodel as sm
+    from ladybug.wea import Wea
+    from ladybug.analysisperiod import AnalysisPeriod
+    from ladybug.datacollection import HourlyContinuousCollection
+    from ladybug.header import Header
+    from ladybug.datatype.fraction import TotalSkyCover, RelativeHumidity
+    from ladybug.datatype.temperature import DryBulbTemperature
+    from ladybug.datatype.speed import WindSpeed
+    from ladybug.datatype.pressure import AtmosphericStationPressure
+    ts, leap, nd = inp['timestep'], bool(inp['leap']), inp['ndays']
+    m, d = inp['month'], inp['day']
+    em, ed = _end_date(m, d, nd, leap)
+    ap = AnalysisPeriod(m, d, 0, em, ed, 23, ts, leap)
+    n = nd * 24 * ts
+    sigd = {'clause': 'sibling', 'where': 'wea_zhang_huang_varying', 'pressure': inp['pres'] is not None,
+            'use_disc': bool(inp['use_disc'])}
+
+    def coll(dt_, unit, v):
+        return HourlyContinuousCollection(Header(dt_, unit, ap), list(v)[:n])
+    try:
+        pres = None if inp['pres'] is None else coll(AtmosphericStationPressure(), 'Pa', inp['pres'])
+        wea = Wea.from_zhang_huang_solar(_mk_location(*inp['loc']), coll(TotalSkyCover(), 'tenths', inp['cc']),
+                                         coll(RelativeHumidity(), '%', inp['rh']),
+                                         coll(DryBulbTemperature(), 'C', inp['t']),
+                                         coll(WindSpeed(), 'm/s', inp['ws']), pres, inp['use_disc'])
+        got = [list(wea.direct_normal_irradiance.values), list(wea.diffuse_horizontal_irradiance.values)]
+    except Exception as e:
+        return {'required': 'a Wea from %d steps of weather' % n, 'observed': 'raises %s: %s'
+                % (type(e).__name__, e), 'sig': dict(sigd, clause='finite', raises=type(e).__name__)}
+    moy0 = (_doy(m, d, leap) - 1) * 1440
+    moys = [moy0 + i * 60 // ts for i in range(n)]
+    alts = [_sun_at(tuple(inp['loc']), leap, mo)[0] for mo in moys]
+    doys = [mo // 1440 + 1 for mo in moys]
+    t = list(inp['t'])[:n]
+    t3 = [t[i - 3 * ts] for i in range(n)]            # 3 h earlier; the first 3 h take the END of the data
+    p = [101325] * n if inp['pres'] is None else list(inp['pres'])[:n]
+    want = sm.zhang_huang_solar_split(alts, doys, list(inp['cc'])[:n], list(inp['rh'])[:n], t, t3,
+                                      list(inp['ws'])[:n], p, inp['use_disc'])
+    want = [list(want[0]), list(want[1])]
+    for c in range(2):
+        if len(got[c]) != n:
+            return {'required': '%d values' % n, 'observed': len(got[c]), 'sig': dict(sigd, clause='length')}
+        for i in range(n):
+            if not _rel(got[c][i], want[c][i], 1e-9, 1e-7):
+                return {'required': 'zhang_huang_solar_split on the same weather (column %d, step %d%s): %r'
+                        % (c, i, ', dry bulb of 3 h before wraps' if i < 3 * ts else '', want[c][i]),
+                        'observed': got[c][i], 'sig': dict(sigd, first_hours=i < 3 * ts)}
+    return None
+
+
+def _gen_wea_zh(rng):
+    lat, lon, tz = rng.choice(gen_locations(rng))
+    leap = rng.random() < 0.4
+    ts = rng.choice([1, 1, 2, 3])
+    nd = rng.choice([1, 2])
+    month, day = rng.choice([(12, 30), (2, 28), (rng.randrange(1, 13), rng.randrange(1, 27))])
+    n = nd * 24 * ts
+    ws = [gen_weather(rng) for _ in range(n)]
+    return {'loc': [lat, lon, tz], 'leap': leap, 'timestep': ts, 'ndays': nd, 'month': month, 'day': day,
+            'cc': [w[0] for w in ws], 'rh': [w[1] for w in ws], 't': [w[2] for w in ws], 'ws': [w[4] for w in ws],
+            'pres': None if rng.random() < 0.4 else [rng.uniform(60000, 105000) for _ in range(n)],
+            'use_disc': rng.random() < 0.5}
+
+
+# ---- branch counters --------------------------------------------------------------------------------------
+
+def _spencer(doy, sc):
+    b = (2. * math.pi / 365.) * (doy - 1)
+    return sc * (1.00011 + 0.034221 * math.cos(b) + 0.00128 * math.sin(b) + 0.000719 * math.cos(2 * b) +
+                 7.7e-05 * math.sin(2 * b))
+
+
+def _count_branches(ctx, op, c):
+    """Which branch of the anchored function an input takes, decided here from the numbers (not by the code)."""
+    def hit(name):
+        ctx.count('branch:' + name)
+    try:
+        if op == 'cs':
+            month, alt = c[0], c[1]
+            if alt <= 0:
+                hit('ashrae_clear_sky:night')
+            elif 1 <= month <= 12 and 0.186 / math.sin(math.radians(alt)) > 709.0:
+                hit('ashrae_clear_sky:overflow_or_near')
+            else:
+                hit('ashrae_clear_sky:day')
+        elif op == 'rcs':
+            hit('ashrae_revised_clear_sky:%s:%s' % ('night' if c[0] <= 0 else 'day', '2017' if c[3] else '2009'))
+        elif op == 'zh':
+            alt, cc, rh, t, t3, ws, irr = c
+            if alt <= 0:
+                hit('zhang_huang_solar:night')
+            else:
+                k = cc / 10.0
+                g = irr * math.sin(math.radians(alt)) * (0.5598 + 0.4982 * k - 0.6762 * k ** 2 + 0.02842 * (t - t3)
+                                                         - 0.00317 * rh + 0.014 * ws) - 17.853
+                hit('zhang_huang_solar:%s' % ('clamp' if g < 0 else 'day'))
+        elif op == 'illum':
+            alt, _ghi, dni, dhi, _dew, am = c
+            if alt <= 0:
+                hit('illuminance:night')
+            else:
+                hit('illuminance:airmass_%s' % ('none' if am is None else 'given'))
+                if dhi == 0:
+                    hit('illuminance:dhi0')
+                    dhi = 0.1
+                z3 = 1.041 * math.radians(90 - alt) ** 3
+                eps = ((dhi + dni) / dhi + z3) / (1 + z3)
+                cat = next((k for k, e in enumerate([1.065, 1.23, 1.5, 1.95, 2.8, 4.5, 6.2]) if eps < e), 7)
+                hit('illuminance:eps<1' if eps < 1 else 'illuminance:eps_category_%d' % cat)
+        elif op == 'disc':
+            ghi, alt, doy, p, min_sin, min_alt, _mx = c
+            if not alt > min_alt:
+                hit('disc:below_min_altitude')
+            elif not ghi > 0:
+                hit('disc:ghi<=0')
+            else:
+                hit('disc:pressure_%s' % ('none' if p is None else 'given'))
+                kt = ghi / (_spencer(doy, 1370.) * max(math.sin(math.radians(alt)), min_sin))
+                hit('disc_kn:kt%s0.6' % ('<=' if min(max(kt, 0), 1) <= 0.6 else '>'))
+        elif op == 'dirint':
+            ud, hd, _ms, _ma, ghi, alts = c[0], c[1], c[2], c[3], c[4], c[5]
+            hit('dirint:delta_%s' % ('on' if ud else 'off'))
+            hit('dirint:dew_%s' % ('given' if hd else 'none'))
+            if len(alts) == 1:
+                hit('dirint:single_step')
+            for a in alts:
+                hit('dirint:alt_bin_%d' % (0 if a > 65 else 1 if a > 50 else 2 if a > 35 else 3 if a > 20 else
+                                           4 if a > 10 else 5))
+        elif op == 'relam':
+            m, a = c
+            hit('relative_airmass:%s' % ('below_horizon' if a < 0 else m.lower() if m.lower() in AM_MODELS
+                                         else 'unknown_name'))
+        elif op == 'ktp':
+            hit('kt_prime:airmass_%s' % ('none' if c[1] is None else 'given'))
+        elif op == 'absam':
+            hit('absolute_airmass:%s' % ('none' if c[0] is None else 'given'))
+        elif op == 'dirirr':
+            salt, saz, sa, sz, iso = c
+            cosi = (math.sin(math.radians(salt)) * math.sin(math.radians(sa)) + math.cos(math.radians(salt)) *
+                    math.cos(math.radians(sa)) * math.cos(math.radians(saz - sz)))
+            hit('directional:%s' % ('sun_down' if salt <= 0 else 'behind_surface' if cosi <= 0 else 'lit'))
+            if iso:
+                hit('directional:isotropic')
+            else:
+                y = 0.55 + 0.437 * cosi + 0.313 * cosi * 0.313 * cosi
+                hit('directional:anisotropic_%s' % ('clamp' if y < 0.45 else 'above'))
+    except Exception:
+        ctx.count('branch:uncounted')
+
+
 def check_case(op, inp):
     if op == 'hist_wea':
         return _check_hist(inp, _WeaHist, _judge_wea, WEA_READS)
@@ -2043,6 +2844,14 @@ def check_case(op, inp):
         return _check_hist(inp, _SkyHist, _judge_sky, SKY_READS)
     if op == 'order':
         return _check_order(inp)
+    if op == 'shapes':
+        return _check_shapes(inp)
+    if op == 'sky_forms':
+        return _check_sky_forms(inp)
+    if op == 'wea_forms':
+        return _check_wea_forms(inp)
+    if op == 'wea_zh':
+        return _check_wea_zh(inp)
     return _check_basic(op, inp)
 
 replay = check_case
@@ -2083,6 +2892,24 @@ FIXED_CORPUS = [
                           ['set_enforce', True], ['ghi'], ['bad_dnr', 'dtype'], ['ghi'], ['item_dnr', 12, 0],
                           ['ghi'], ['dup_ghi'], ['face', 3, 0.2, True]]}),
 ]
+# round 4: one-shot iterables / other containers, aliasing, sibling forms (fixed examples of each class)
+_DAY_ALTS = [-40.0, -12.5, 0.0, 3, 10.0, 35.5, 62.25, 90, 48.0, 20, 1e-9, -1.0]
+for _fn, _prm in (('cs', {'alts': _DAY_ALTS, 'month': 6, 'clearness': 1}),
+                  ('rcs', {'alts': _DAY_ALTS, 'tb': 0.4, 'td': 2.0, 'use2017': False}),
+                  ('rcs', {'alts': _DAY_ALTS, 'tb': 0.33, 'td': 2.4, 'use2017': True})):
+    for _sh in ('gen', 'iter', 'map', 'tuple', 'alias'):
+        FIXED_CORPUS.append(('shapes', {'fn': _fn, 'shape': _sh, 'params': _prm,
+                                        'params2': dict(_prm, alts=[a + 1 for a in _DAY_ALTS])}))
+for _kind in ('clear', 'tau'):
+    for _form in ('direct', 'dd', 'dd_dict', 'period'):
+        FIXED_CORPUS.append(('sky_forms', {'sky': _kind, 'form': _form, 'month': 7, 'day': 21, 'leap': False,
+                                           'dls': _form == 'dd', 'clearness': 1.1, 'tb': 0.45, 'td': 2.1,
+                                           'use2017': False, 'loc': [40.7, -74.0, -5], 'ts': 1}))
+for _form in ('period_string', 'dict', 'filter_moys', 'unsorted'):
+    FIXED_CORPUS.append(('wea_forms', {'form': _form, 'loc': [-33.9, 151.2, 10], 'month': 2, 'day': 28, 'ndays': 2,
+                                       'timestep': 2, 'leap': True, 'dnr': [600.0 + i for i in range(96)],
+                                       'dhr': [90.0 + i for i in range(96)], 'enforce': False, 'az': 135,
+                                       'refl': 0.3, 'iso': False, 'face': 5, 'order': [30, 5, 70, 22, 30]}))
 # real Wea objects: build, set enforce_on_hour (second step), then evaluate -- both flag states, timestep 1 and
 # >1, leap / non-leap, northern and southern hemisphere
 for _loc, _md, _ts, _leap in (((41.98, -87.92, -6), (6, 21), 1, False), ((-33.9, 151.2, 10), (12, 21), 1, True),
@@ -2164,6 +2991,36 @@ def _oracle_cases(ctx):
         yield 'hist_wea', _gen_wea_hist(rng, ctx)
     for _ in range(n_hist):
         yield 'hist_sky', _gen_sky_hist(rng, ctx)
+    # round 4: container shapes / aliasing of the list-taking models, sibling forms of skies, design days, Weas
+    for fn in ('cs', 'rcs', 'zhs', 'dirint'):
+        for shape in ('list', 'alias') + SEQ_SHAPES + ONE_SHOT:
+            for _ in range(6 if big else 3):
+                prm = _gen_shape_params(rng, fn)
+                inp = {'fn': fn, 'shape': shape, 'params': prm, 'params2': _gen_shape_params(rng, fn)}
+                if shape not in ('list', 'alias') and fn in ('zhs', 'dirint') and rng.random() < 0.5:
+                    inp['which'] = rng.randrange(8 if fn == 'zhs' else 5)     # only ONE argument in this shape
+                ctx.count('shape:%s:%s' % (fn, shape))
+                yield 'shapes', inp
+    for form in SKY_FORMS:
+        for kind in ('clear', 'tau'):
+            for _ in range(4 if big else 2):
+                leap = rng.random() < 0.3 and form != 'dd_idf'       # the IDF text has no leap-year field
+                lat, lon, tz = rng.choice(gen_locations(rng))
+                ctx.count('sky_form:%s:%s' % (kind, form))
+                yield 'sky_forms', {'sky': kind, 'form': form, 'month': rng.randrange(1, 13),
+                                    'day': rng.randrange(1, 28), 'leap': leap, 'dls': rng.random() < 0.4,
+                                    'clearness': rng.choice([1, 0, 1.2, rng.uniform(0, 1.2)]),
+                                    'tb': rng.uniform(0.2, 0.8), 'td': rng.uniform(1.5, 2.8),
+                                    'use2017': rng.random() < 0.5, 'loc': [lat, lon, tz],
+                                    'ts': rng.choice([1, 1, 2, 3, 4, 12])}
+    for form in WEA_FORMS:
+        for _ in range(8 if big else 3):
+            ctx.count('wea_form:' + form)
+            yield 'wea_forms', _gen_wea_form(rng, form)
+    for _ in range(40 if big else 12):
+        inp = _gen_wea_zh(rng)
+        ctx.count('branch:wea_zhang_huang:pressure_%s' % ('none' if inp['pres'] is None else 'given'))
+        yield 'wea_zh', inp
     # rare day numbers / solar constants of the extraterrestrial irradiance, one by one
     for doy in [1, 2, 59, 60, 61, 365, 366, 100.5, 365.99] + [rng.randrange(1, 367) for _ in range(40)]:
         yield 'extra_day', {'doy': doy, 'sc': rng.choice([1366.1, 1366.1, 1355, 1000.0])}
@@ -2178,15 +3035,20 @@ def _oracle_cases(ctx):
         yield 'wea_constructor', {'lat': lat, 'lon': lon, 'tz': tz, 'kind': 'zhang_huang', 'leap': leap,
                                   'month': month, 'day': day, 'use_disc': rng.random() < 0.5, 'cc': cc, 'rh': rh,
                                   't': t, 'ws': ws, 'timestep': rng.choice([1, 1, 2, 3])}
-    for _ in range(6 if big else 1):
+    for _j in range(6 if big else 2):
         lat, lon, tz = rng.choice(gen_locations(rng))
         base = {'lat': lat, 'lon': lon, 'tz': tz, 'timestep': rng.choice([1, 1, 2]) if big else 1,
                 'leap': rng.random() < 0.3}
-        if rng.random() < 0.5:
+        nst = (8784 if base['leap'] else 8760) * base['timestep']
+        base['sample'] = [0, 1, nst - 1, nst - 2, 1416 * base['timestep'], 1440 * base['timestep']] + \
+            [rng.randrange(nst) for _ in range(150)]
+        if _j % 2 == 0:
             yield 'wea_constructor', dict(base, kind='ashrae_clear_sky', clearness=rng.choice([1, 1.2, 0.8]))
         else:
-            yield 'wea_constructor', dict(base, kind='ashrae_revised_clear_sky', tb=rng.uniform(0.2, 0.8),
-                                          td=rng.uniform(1.5, 2.8), use2017=rng.random() < 0.5)
+            yield 'wea_constructor', dict(base, kind='ashrae_revised_clear_sky', tb=0.4, td=2.0,
+                                          tbs=[rng.uniform(0.2, 0.8) for _ in range(12)],
+                                          tds=[rng.uniform(1.5, 2.8) for _ in range(12)],
+                                          use2017=rng.random() < 0.5)
     for _ in range(100 if big else 36):
         lat, lon, tz = rng.choice(gen_locations(rng))
         base = {'lat': lat, 'lon': lon, 'tz': tz, 'month': rng.randrange(1, 13), 'day': rng.randrange(1, 28),
